@@ -19,14 +19,10 @@ def sh(cmd, cwd=None, timeout=1800):
 
 def run_demo(wt, mdir, i):
     d = os.path.join(mdir, f"demo_{i}")
-    if os.path.exists(os.path.join(d, "run.sh")):
-        env_backup = ENV.get("REPO")
-        ENV["REPO"] = wt
-        try:
-            return sh(["bash", os.path.join(d, "run.sh"), wt], cwd=d, timeout=900)
-        finally:
-            if env_backup is None:
-                ENV.pop("REPO", None)
+    ENV["REPO"] = wt
+    for name in ("run.sh", "demo.sh", "verify.sh"):
+        if os.path.exists(os.path.join(d, name)):
+            return sh(["bash", os.path.join(d, name), wt], cwd=d, timeout=900)
     tests = [f for f in os.listdir(d) if f.endswith("_test.go")]
     if tests:
         src = open(os.path.join(d, tests[0])).read()
@@ -60,6 +56,8 @@ def main():
         checks = sys.argv[sys.argv.index("--checks") + 1].split(",")
     if "--tier" in sys.argv:
         tier = sys.argv[sys.argv.index("--tier") + 1]
+    VERIF = os.environ.get("TRIAL_VERIF", "/verif")
+    REPO = os.environ.get("TRIAL_REPO", "/repo")
     patch = os.path.join(mdir, f"patch_{i}.diff")
     res = dict(property=pid, mutant=f"{mdir}#{i}", patch=patch)
     wt = f"/tmp/mv_{pid}_{i}"
@@ -88,20 +86,21 @@ def main():
         shutil.rmtree(wt, ignore_errors=True)
     res["confirmed"] = all(res.get(k) for k in ("applies", "builds", "tests_pass", "demo_fails_with_change", "demo_passes_without"))
     # run the checks against it
-    rc, out = sh(["git", "-C", "/repo", "apply", patch])
+    rc, out = sh(["git", "-C", REPO, "apply", patch])
     if rc != 0:
-        res["error"] = "does not apply to /repo: " + out[-300:]
+        res["error"] = "does not apply to the repo: " + out[-300:]
         return res
     try:
         res["checks"] = {}
         for c in checks:
             t = time.time()
-            rc, out = sh(["./check", c, tier], cwd="/verif", timeout=3600)
+            ENV["VERIF_REPO"] = REPO
+            rc, out = sh(["./check", c, tier], cwd=VERIF, timeout=3600)
             viol = [l for l in out.split("\n") if l.startswith("VIOLATION")]
             detail = [l.strip() for l in out.split("\n") if l.startswith("  ")][:3]
             res["checks"][c] = dict(exit=rc, violations=viol[:3], detail=detail, wall_s=round(time.time() - t, 1))
     finally:
-        sh("git -C /repo checkout -- . && git -C /repo clean -fdq pkg cmd")
+        sh(f"git -C {REPO} checkout -- . && git -C {REPO} clean -fdq pkg cmd")
     res["caught_by"] = [c for c, v in res["checks"].items() if v["exit"] != 0]
     return res
 
